@@ -130,7 +130,7 @@ HsvColorVerdict(ev) ==
     ELSE LET hr == QFromD(Val(f, r[1])) h == HueOfRgb(cq) IN
     IF ~QLe(HueDist(hr, h), tol) THEN VBad
     ELSE IF QSign(hr) >= 0 /\ QLt(hr, Q360) THEN VOk
-    ELSE IF QEq(hr, Q360) THEN VKnown("KD-C19-hsvColor-hue-360")                                  \* h + 360 rounded up to 360.0
+    ELSE IF QEq(hr, Q360) /\ QLt(Q180, h) THEN VKnown("KD-C19-hsvColor-hue-360")                  \* a hue just below 360: h + 360 rounded up to 360.0
     ELSE VBad
 
 RgbColorVerdict(ev) ==
